@@ -615,6 +615,12 @@ def render_fn(idx, fs, table, ctx):
     if where:
         parts.append(" ".join(rewrite_tokens(where, rules, opts)))
     sig_txt = " ".join(p for p in parts if p)
+    for a, b in ctx.get("sigsubst", []):
+        # R13: supertrait split.  Verus rejects the trait cycle Fixed: FromFixed + ToFixed / FromFixed::f<F: Fixed>, so a unit
+        # declares `Fixed` without those supertraits and the generic bound of the real signature is widened accordingly
+        if a in sig_txt:
+            sig_txt = sig_txt.replace(a, b)
+            rules.fired.add("R13")
     contract = ""
     if fs.requires:
         contract += "\n    requires " + ",\n        ".join(fs.requires) + ","
@@ -845,6 +851,14 @@ def render_unit(idx, tmpl_path, root, must_fail=False, params=None):
             if not re.search(pat, idx.text):
                 raise ExtractError("required source text not found: %s" % pat)
             out.append("// required source text present: " + pat)
+            i += 1
+            continue
+        if s.startswith("//@sigsubst "):
+            if s.strip() == "//@sigsubst off":
+                ctx["sigsubst"] = []
+            else:
+                a, b = s[len("//@sigsubst "):].split("=>")
+                ctx.setdefault("sigsubst", []).append((a.strip(), b.strip()))
             i += 1
             continue
         if s.startswith("//@ctx "):
